@@ -143,7 +143,21 @@ impl<Octets> UncertainName<Octets> {
     {
         let mut builder =
             NameBuilder::<<Octets as FromBuilder>::Builder>::new();
-        builder.append_chars(chars)?;
+        // NameBuilder can’t deal with a single dot, i.e., the root name, so
+        // we need to special case that.
+        let mut chars = chars.into_iter();
+        match chars.next() {
+            Some('.') => {
+                if chars.next().is_some() {
+                    return Err(FromStrError::empty_label());
+                }
+                return Ok(builder.into_name()?.into());
+            }
+            Some(first) => {
+                builder.append_chars(core::iter::once(first).chain(chars))?
+            }
+            None => {}
+        }
         if builder.in_label() || builder.is_empty() {
             Ok(builder.finish().into())
         } else {
